@@ -18,8 +18,8 @@ Edits == {[op |-> "AddComp", name |-> n, smart |-> s] : n \in {"nic", "nic2"}, s
     \cup {[op |-> "AddSvc", name |-> n] : n \in {"ns2"}} \cup {[op |-> "RemSvc", name |-> n] : n \in {"ns1"}}
     \cup {[op |-> "AddSub", c |-> "nic", i |-> i, name |-> n] : i \in {"p1", "p2"}, n \in {"v200"}}
     \cup {[op |-> "RemSub", c |-> "nic", i |-> "p1", name |-> "v100"]}
-    \cup {[op |-> "SetNode", which |-> w, v |-> v] : <<w, v>> \in {<<"labels", "L2">>, <<"caps", "C2">>, <<"ud", "U2">>, <<"ud", "U1">>}}
-    \cup {[op |-> "SetComp", c |-> c, which |-> w, v |-> v] : c \in {"nic", "gpu"}, <<w, v>> \in {<<"labels", "L2">>, <<"caps", "C2">>, <<"ud", "U1">>}}
+    \cup {[op |-> "SetNode", which |-> w, v |-> v] : <<w, v>> \in {<<"labels", "L2">>, <<"caps", "C2">>, <<"ud", "U2">>, <<"ud", "U1">>, <<"ud", "U1s">>}}
+    \cup {[op |-> "SetComp", c |-> c, which |-> w, v |-> v] : c \in {"nic", "gpu"}, <<w, v>> \in {<<"labels", "L2">>, <<"caps", "C2">>, <<"ud", "U1">>, <<"ud", "U1s">>}}
     \cup {[op |-> "SetSvc", s |-> "ns1", which |-> w, v |-> v] : <<w, v>> \in {<<"labels", "L2">>, <<"caps", "C2">>}}
     \cup {[op |-> "SetIf", c |-> "nic", i |-> "p2", which |-> w, v |-> v] : <<w, v>> \in {<<"labels", "L2">>, <<"caps", "C2">>}}
     \cup {[op |-> "SetSub", c |-> "nic", i |-> "p1", name |-> "v100", which |-> "labels", v |-> "L2"]}
